@@ -25,14 +25,20 @@ pub fn retired_token_phase(w: &mut crate::world::World, r: &mut Rng, lane: Lane)
     let alive_before: Vec<(usize, usize, usize)> = w.eps.iter().enumerate().flat_map(|(ei, e)| e.conns.iter().filter(|(_, c)| !c.c.is_closed() && !c.c.is_drained() && c.app.lost_count == 0).map(move |(ch, c)| (ei, *ch, c.app.lost_count as usize))).collect();
     let mut at = w.now + 1_000_000;
     let mut injected = 0;
+    // (short CIDs repeat and a token is a function of its CID: a retired sequence number, or a
+    // drained connection, may have carried the same token as a CID some live connection of that
+    // endpoint still uses - that one legitimately resets)
+    let mut in_use: std::collections::BTreeSet<(usize, [u8; 16])> = Default::default();
+    for ((ei, pair), n) in &seen {
+        if w.eps[*ei].conns.values().any(|c| c.pair == *pair && !c.c.is_drained()) {
+            in_use.extend(n.tokens.iter().filter(|(seq, _)| !n.retired_sent.contains(seq)).map(|(_, t)| (*ei, *t)));
+        }
+    }
     for ((ei, pair), n) in seen {
         let alive = w.eps[ei].conns.values().any(|c| c.pair == pair && !c.c.is_drained());
         let dst = w.eps[ei].addr;
-        // (short CIDs repeat, and a token is a function of its CID: a retired sequence number may
-        // carry the same token as one still in use)
-        let maybe_active: std::collections::BTreeSet<[u8; 16]> = n.tokens.iter().filter(|(seq, _)| !n.retired_sent.contains(seq)).map(|(_, t)| *t).collect();
         for (seq, tok) in &n.tokens {
-            if alive && (!n.retired_sent.contains(seq) || maybe_active.contains(tok)) {
+            if in_use.contains(&(ei, *tok)) || (alive && !n.retired_sent.contains(seq)) {
                 // possibly the token in use (that one legitimately resets); only those the
                 // connection itself announced as retired are certainly not
                 continue;
@@ -76,7 +82,8 @@ pub fn retired_token_phase(w: &mut crate::world::World, r: &mut Rng, lane: Lane)
     }
 }
 
-fn case(seed: u64, lane: Lane, trace: bool, stale_focus: bool) -> CaseOut {
+fn case(seed: u64, lane: Lane, trace: bool, focus: u8) -> CaseOut {
+    let (stale_focus, short_focus) = (focus == 1, focus == 2);
     let mut r = Rng::new(seed ^ 0xC09);
     let mut k = Knobs::default();
     k.lane = lane;
@@ -116,12 +123,27 @@ fn case(seed: u64, lane: Lane, trace: bool, stale_focus: bool) -> CaseOut {
         h.cid_gen = CidGenKind::Seq;
         h.cid_len = [*r.pick(&[8, 16, 20]), *r.pick(&[8, 20])];
     }
+    if short_focus {
+        // one- and two-byte CIDs from a small pseudo-random space: every endpoint holds dozens of
+        // them, so newly generated ones keep colliding with CIDs other connections still use.
+        // Strict FIFO delivery without duplicates: a datagram then always arrives while the CID
+        // it carries still belongs to its connection.
+        h.cid_gen = CidGenKind::Seq;
+        h.cid_len = [*r.pick(&[1, 1, 2]), *r.pick(&[1, 2])];
+        h.cid_lifetime_ms = *r.pick(&[None, Some(150), Some(400), Some(2000)]);
+        h.net.dup_pm = 0;
+        h.net.reorder_pm = 0;
+        h.net.replay_pm = 0;
+        h.net.jitter_ns = 0;
+        h.net.dup_idx = Default::default();
+        h.ops.retain(|(_, op)| !matches!(op, Op::Rebind { .. }));
+    }
     for t in h.cli_t.iter_mut().chain([&mut h.srv_t]) {
         t.pad_to_mtu = false;
     }
     // extra connections from existing client endpoints (several handles per client endpoint),
     // connections closing and new ones reusing freed slots
-    let n_extra = r.below(6);
+    let n_extra = if short_focus { 4 + r.below(8) } else { r.below(6) };
     for _ in 0..n_extra {
         let from = 1 + r.usize(k.n_clients);
         let at = r.below(4_000_000_000);
@@ -141,26 +163,38 @@ fn case(seed: u64, lane: Lane, trace: bool, stale_focus: bool) -> CaseOut {
         }
     }
     let reconnect_focus = seed % 5 == 0;
-    if reconnect_focus {
+    if reconnect_focus && !short_focus {
         // a client that closes and immediately reconnects from the same address to a server that
         // routes by address (zero-length CIDs)
         h.cid_len[0] = 0;
         h.cid_gen = CidGenKind::Seq;
     }
-    if h.cid_len[0] == 0 {
+    if h.cid_len[0] == 0 && !short_focus {
         // address-routed server: its clients cannot migrate (see scen.rs) and the same client
         // endpoint cannot hold two connections to it
         h.ops.retain(|(_, op)| !matches!(op, Op::Connect { .. } | Op::Rebind { .. }));
     }
-    if reconnect_focus {
+    if reconnect_focus && !short_focus {
         let ep = 1 + r.usize(k.n_clients);
         let at = 300_000_000 + r.below(2_000_000_000);
         h.ops.push((at, Op::CloseOne { ep, ch: 0, code: 9 }));
         let gap = *r.pick(&[0u64, 1_000, 1_000_000, 20_000_000, 200_000_000]);
         h.ops.push((at + gap, Op::Connect { from: ep, tcfg: Box::new(h.cli_t[ep - 1].clone()), app: Box::new(h.cli_app[ep - 1].clone()) }));
     }
-    let mut ran = run_honest(&h, trace, 40_000, 900_000_000_000);
-    retired_token_phase(&mut ran.w, &mut r, lane);
+    let mut ran = {
+        let mut w = h.build();
+        if trace {
+            w.trace = Some(vec![]);
+        }
+        w.mon.track_cid_owner = short_focus;
+        let end = w.run(40_000, 900_000_000_000, |w| w.steps > 3 && w.all_connected() && w.workload_complete());
+        Ran { w, end }
+    };
+    if !short_focus {
+        // (with one- and two-byte CIDs the reset tokens, which are a function of the CID, repeat
+        // across connections and with the unobservable token of the handshake CID)
+        retired_token_phase(&mut ran.w, &mut r, lane);
+    }
     // isolation: connections that were not closed on purpose (nor share an endpoint with a
     // closed one's peer) must not have been lost
     let mut msgs = vec![];
@@ -211,15 +245,17 @@ pub fn run(ctx: &Ctx) -> i32 {
     let t = Instant::now();
     let mut rep = Report::default();
     let g = Group { name: "multi-null", cases: ctx.tier.pick(300, 20_000), budget_s: ctx.tier.pick(50.0, 600.0), exhaustive: false };
-    run_group(ctx, &mut rep, &g, |_, seed, trace| case(seed, Lane::Null, trace, false));
+    run_group(ctx, &mut rep, &g, |_, seed, trace| case(seed, Lane::Null, trace, 0));
     let g = Group { name: "stale-cid", cases: ctx.tier.pick(500, 20_000), budget_s: ctx.tier.pick(25.0, 300.0), exhaustive: false };
-    run_group(ctx, &mut rep, &g, |_, seed, trace| case(seed, Lane::Null, trace, true));
+    run_group(ctx, &mut rep, &g, |_, seed, trace| case(seed, Lane::Null, trace, 1));
+    let g = Group { name: "short-cid", cases: ctx.tier.pick(400, 20_000), budget_s: ctx.tier.pick(15.0, 200.0), exhaustive: false };
+    run_group(ctx, &mut rep, &g, |_, seed, trace| case(seed, Lane::Null, trace, 2));
     finish(
         ctx,
         &rep,
         Finish {
             level: "exploration",
-            rule: "seeded worlds with 2-8 client endpoints on one server endpoint plus up to 5 further connections started later from the same client endpoints (several handles per endpoint, slab slots reused after drains), CID lengths 0..20 with the harness / Random / Hashed generators, CID lifetimes 30 ms - 2 s forcing rotation, rebinding clients (remote CID switches and retirements), single connections closed mid-run, loss/dup/reorder/corruption. Oracles: every genuine datagram produced by connection X that an endpoint routes to a connection must be routed to X's own peer (pair id carried in the client-chosen initial DCID and recovered from Incoming::orig_dst_cid), never to another live handle; payloads are keyed by pair so any cross-connection byte trips the C01/C16 oracles; connections nobody closed are never lost and complete. Non-trivial = at least four connections and one routing check.".into(),
+            rule: "seeded worlds with 2-8 client endpoints on one server endpoint plus up to 5 further connections started later from the same client endpoints (several handles per endpoint, slab slots reused after drains), CID lengths 0..20 with the harness / Random / Hashed generators, CID lifetimes 30 ms - 2 s forcing rotation, rebinding clients (remote CID switches and retirements), single connections closed mid-run, loss/dup/reorder/corruption. Oracles: every genuine datagram produced by connection X that an endpoint routes to a connection must be routed to X's own peer (pair id carried in the client-chosen initial DCID and recovered from Incoming::orig_dst_cid), never to another live handle; payloads are keyed by pair so any cross-connection byte trips the C01/C16 oracles; connections nobody closed are never lost and complete. (short-cid) the same with one- and two-byte CIDs drawn from a small pseudo-random space on every endpoint, 4-11 further connections and rotation, over a strictly FIFO network without duplicates, so that generated CIDs constantly collide with CIDs other live connections still use. (retired tokens, all groups) at the end every reset token a connection was given for CIDs it has itself announced as retired, and every token of drained connections, is offered as a stateless reset from the right address: none may reach a forgotten handle or end a live connection. Non-trivial = at least four connections and one routing check.".into(),
             assumptions: vec!["pairing is established by the harness-chosen initial destination CID".into()],
             min_evals: ctx.tier.pick(60, 2000),
             min_nontrivial: ctx.tier.pick(40, 1000),
